@@ -28,6 +28,7 @@ type c17case struct {
 	Edges  [][]int `json:"imports"` // Edges[i] = files imported by file i (in order; may repeat)
 	Root   int     `json:"root"`
 	DirImp []int   `json:"dir_importers"` // files that also import the directory "lib"
+	LibSib bool    `json:"lib_sibling_import"` // lib/l100.yaml also imports its sibling lib/l101.yaml (which sorts later)
 	LibImp int     `json:"lib_imports"`   // file imported by lib/l100.yaml (the first file of the directory), -1 = none
 	Break  int     `json:"break"`         // index of a file made missing/broken (-1 none); -2 = a file of the directory
 	How    string  `json:"how"`           // missing | syntax | wrongtype
@@ -88,6 +89,9 @@ func runC17(c *h.Ctx, idx int, cs c17case) {
 		var libImps []string
 		if cs.LibImp >= 0 {
 			libImps = []string{relPath("lib/l100.yaml", c17path(cs.LibImp))}
+		}
+		if cs.LibSib {
+			libImps = append(libImps, "l101.yaml")
 		}
 		h.WriteFile(real+"/lib/l100.yaml", fileDef(100, libImps))
 		l101 := fileDef(101, nil)
@@ -333,6 +337,9 @@ func c17(c *h.Ctx) {
 	cases = append(cases, c17case{N: 2, Edges: [][]int{{}, {}}, Root: 0, DirImp: []int{0}, Break: -1, LibImp: 1})
 	cases = append(cases, c17case{N: 3, Edges: [][]int{{1}, {}, {}}, Root: 0, DirImp: []int{1}, Break: -1, LibImp: 2})
 	cases = append(cases, c17case{N: 1, Edges: [][]int{{}}, Root: 0, DirImp: []int{0}, Break: -1, LibImp: 0})
+	// a file of the directory imports a sibling that sorts later in the same directory
+	cases = append(cases, c17case{N: 1, Edges: [][]int{{}}, Root: 0, DirImp: []int{0}, Break: -1, LibImp: -1, LibSib: true})
+	cases = append(cases, c17case{N: 2, Edges: [][]int{{1}, {}}, Root: 0, DirImp: []int{1}, Break: -1, LibImp: 0, LibSib: true})
 	for i := 0; i < c.N(150, 6000); i++ {
 		n := rnd.Range(4, 6)
 		edges := make([][]int, n)
@@ -352,6 +359,7 @@ func c17(c *h.Ctx) {
 			if rnd.Chance(50) {
 				cs.LibImp = rnd.Intn(n)
 			}
+			cs.LibSib = rnd.Chance(30)
 			if rnd.Chance(30) {
 				cs.DirImp = append(cs.DirImp, rnd.Intn(n))
 			}
